@@ -2,17 +2,29 @@
 //!
 //! Generated: an INVITE (header shapes from pools, optional Via sent-by override) on a reliable | unreliable mock
 //! datagram transport, 1..5 scripted responses (status, To-tag, arrival offsets around 32 s / 64*T1, echoed headers
-//! optionally changed by the peer, packet source = the INVITE's destination | another address) and a transport
-//! fault plan: the `send` of the ACK answering a retransmitted final may fail with a transient io::Error.
-//! Oracle: a reference state machine over the response history says which response must be answered by an ACK
-//! transmission at its arrival instant (on the wire, or - when the fault plan fails that send - as a failed send
-//! call; a failed ACK does not excuse the ACKs for later retransmissions), what each ACK contains (Request-URI,
-//! Via, From, Call-ID, CSeq, Route of the INVITE; To of the response; destination of the INVITE whatever the
-//! response's source) and what `receive()` yields. Not asserted: To of an ACK for a later final with another
-//! To-tag, ACKs for 1xx/2xx arriving in Completed (optional), send faults on the INVITE or on the first ACK (not
-//! generated: they end the transaction with an io error, the statement is silent).
+//! optionally changed by the peer, packet source = the INVITE's destination | another address, received on the
+//! transport handle the INVITE was sent with | on a second transport of the same kind, optionally followed in the
+//! same burst by N retransmissions of itself that reach the endpoint before any task of the stack runs), a
+//! transport fault plan (the `send` of the ACK answering a retransmitted final may fail with a transient
+//! io::Error) and the pace of the application: the transaction object is poll-driven, so the case says when
+//! `receive()` is called for the first time (at once ... only after 64*T1) and how long the caller is busy after
+//! each response before it calls `receive()` again.
+//! Oracle: a reference state machine over the response history and the caller's pace says which response must be
+//! answered by an ACK transmission and when (the first 3xx-6xx: when the caller's `receive()` takes it = arrival or
+//! the caller's next `receive()`, whichever is later; retransmissions: at their arrival, or together with the
+//! first ACK when they piled up before it; on the wire, or - when the fault plan fails that send - as a failed
+//! send call; a failed ACK does not excuse the ACKs for later retransmissions), what each ACK contains
+//! (Request-URI, Via, From, Call-ID, CSeq, Route of the INVITE; To of the response; destination AND transport of
+//! the INVITE whatever the response's source / receiving transport) and what `receive()` yields: every response
+//! that arrived while the transaction had to accept it comes out, in arrival order, at max(arrival, caller asks);
+//! a response that arrived in time is never replaced by a timeout because the caller asked late.
+//! Not asserted: To of an ACK for a later final with another To-tag, ACKs for 1xx/2xx arriving in Completed
+//! (optional), retransmitted finals / further 2xx arriving after "32 s / 64*T1 since the first one ARRIVED" but
+//! before "32 s / 64*T1 since the caller TOOK it" (optional), send faults on the INVITE or on the first ACK (not
+//! generated: they end the transaction with an io error, the statement is silent), INVITE retransmission instants
+//! (C05).
 
-use super::c05::{run_client_ex, Delivery, Res, OTHER_SOURCE};
+use super::c05::{brief, run_client_paced, Delivery, Pace, Res, OTHER_SOURCE};
 use crate::engine::*;
 use crate::refmodel::ref_tsx::TIMEOUT;
 use crate::world::wire::param_of;
@@ -47,6 +59,48 @@ pub struct Resp {
     /// the datagram comes from another address/port than the INVITE was sent to
     #[serde(default)]
     pub other_source: bool,
+    /// the endpoint receives the response with another transport handle than the one the INVITE was sent with
+    /// (second socket, another connection of the same peer); it still belongs to the transaction
+    #[serde(default)]
+    pub other_transport: bool,
+    /// the response is followed by this many retransmissions of itself in one burst: all of them reach the
+    /// endpoint in the same instant, before any task of the stack runs (one read of a stream transport holding
+    /// many messages, a socket drained in a loop)
+    #[serde(default)]
+    pub copies: u16,
+}
+
+/// one response as it reaches the endpoint (`Resp` with its retransmission burst written out); the marker of
+/// the i-th entry is `m<i>`
+#[derive(Clone, Debug)]
+struct Flat {
+    t_ms: u64,
+    code: u16,
+    to_tag: Option<u8>,
+    mangle: u8,
+    send_fault: bool,
+    other_source: bool,
+    other_transport: bool,
+    glued: bool,
+}
+
+fn flatten(responses: &[Resp]) -> Vec<Flat> {
+    let mut out = vec![];
+    for r in responses {
+        for k in 0..=r.copies {
+            out.push(Flat {
+                t_ms: r.t_ms,
+                code: r.code,
+                to_tag: r.to_tag,
+                mangle: r.mangle,
+                send_fault: r.send_fault && r.copies == 0,
+                other_source: r.other_source,
+                other_transport: r.other_transport,
+                glued: k > 0,
+            });
+        }
+    }
+    out
 }
 
 /// the response as the peer sends it: `response_text` plus the case's header changes
@@ -93,6 +147,12 @@ pub struct Case {
     pub via_host_port: Option<String>,
     pub responses: Vec<Resp>,
     pub rng: u8,
+    /// the application calls `receive()` for the first time at this instant (ms after the INVITE was sent)
+    #[serde(default)]
+    pub first_poll: u64,
+    /// how long the application is busy after the i-th response before it calls `receive()` again
+    #[serde(default)]
+    pub thinks: Vec<u64>,
 }
 
 const REQ_URIS: &[&str] = &[
@@ -120,6 +180,10 @@ const ROUTES: &[&str] = &[
     "<sips:p4.example.org>",
 ];
 const CODES: &[u16] = &[100, 180, 200, 299, 300, 302, 404, 486, 500, 600, 603, 699];
+/// first `receive()` of a paced caller: at once, while responses arrive, only after 64*T1 (never exactly on it)
+const FIRST_POLLS: &[u64] = &[0, 0, 0, 1, 700, 5_000, 20_000, 31_500, TIMEOUT + 1, 33_000, 40_000, 70_000];
+const THINKS: &[u64] = &[0, 0, 0, 10, 600, 5_000, 33_000];
+const COPIES: &[u16] = &[1, 2, 3, 8, 16, 31, 32, 33, 40, 64, 65, 100];
 const OFFSETS: &[u64] = &[0, 1, 499, 500, 5000, 20_000, 31_999, 32_001, TIMEOUT - 1, TIMEOUT + 1, 50_000];
 
 pub fn strategy() -> BoxedStrategy<Case> {
@@ -135,18 +199,34 @@ pub fn strategy() -> BoxedStrategy<Case> {
                 (any::<u16>(), 0u64..40_000, any::<bool>(), any::<u16>(), prop::option::of(0u8..3), prop_oneof![2 => Just(0u8), 1 => 0u8..16, 1 => prop::sample::select(vec![1u8, 2, 4, 8])]),
                 prop_oneof![2 => Just(false), 1 => Just(true)],
                 prop_oneof![5 => Just(false), 1 => Just(true)],
+                prop_oneof![4 => Just(false), 1 => Just(true)],
             ),
             1..6,
         ),
         any::<u8>(),
+        (
+            // pace of the application: always inside receive() | first receive(), busy time after each response
+            prop_oneof![2 => Just(false), 3 => Just(true)],
+            any::<u16>(),
+            prop::collection::vec(any::<u16>(), 0..4),
+            // one response of the history is followed by a burst of retransmissions of itself
+            prop_oneof![5 => Just(None), 1 => (any::<u16>(), any::<u16>()).prop_map(Some)],
+        ),
     )
-        .prop_map(|(reliable, (us, fs, ts), call_id, cseq, rs, via_host_port, raw, rng)| {
+        .prop_map(|(reliable, (us, fs, ts), call_id, cseq, rs, via_host_port, raw, rng, (use_pace, psel, thsel, burst))| {
+            let first_poll = if use_pace { FIRST_POLLS[pick_idx(psel, FIRST_POLLS.len())] } else { 0 };
+            let thinks: Vec<u64> = if use_pace { thsel.into_iter().map(|s| THINKS[pick_idx(s, THINKS.len())]).collect() } else { vec![] };
+            let burst_at = burst.map(|(which, len)| (pick_idx(which, raw.len()), COPIES[pick_idx(len, COPIES.len())]));
             let mut t = 0;
             let mut responses: Vec<Resp> = vec![];
             // has a 3xx-6xx arrived while no 2xx had been seen (= the transaction is in Completed)
             let mut completed = false;
             let mut accepted = false;
-            for (i, ((osel, rnd, use_rnd, csel, to_tag, mangle), fault, other_source)) in raw.into_iter().enumerate() {
+            for (i, ((osel, rnd, use_rnd, csel, to_tag, mangle), fault, other_source, other_transport)) in raw.into_iter().enumerate() {
+                let copies = match burst_at {
+                    Some((at, n)) if at == i => n,
+                    _ => 0,
+                };
                 let off = if use_rnd { rnd } else { OFFSETS[pick_idx(osel, OFFSETS.len())] };
                 t += if i == 0 { off.min(31_000).max(1) } else { off };
                 // keep clear of the INVITE retransmission instants and of the 32 s / 64*T1 edges (ties are don't-care)
@@ -159,8 +239,10 @@ pub fn strategy() -> BoxedStrategy<Case> {
                     code,
                     to_tag,
                     mangle,
-                    send_fault: fault && completed && !reliable,
+                    send_fault: fault && completed && !reliable && copies == 0,
                     other_source,
+                    other_transport,
+                    copies,
                 });
                 if (200..300).contains(&code) && !completed {
                     accepted = true;
@@ -168,6 +250,13 @@ pub fn strategy() -> BoxedStrategy<Case> {
                 if code >= 300 && !accepted {
                     completed = true;
                 }
+            }
+            // the fault plan ("the send call made while this response is handled fails") is only meaningful for a
+            // response that arrives after the caller took the first 3xx-6xx (then the Completed state answers it
+            // on its own, at once)
+            let taken = first_failure_taken(&flatten(&responses), first_poll, &thinks);
+            for r in responses.iter_mut() {
+                r.send_fault = r.send_fault && taken.map_or(false, |(_, p)| r.t_ms > p);
             }
             Case {
                 reliable,
@@ -180,9 +269,30 @@ pub fn strategy() -> BoxedStrategy<Case> {
                 via_host_port,
                 responses,
                 rng,
+                first_poll,
+                thinks,
             }
         })
         .boxed()
+}
+
+/// Caller model for the part of the history in which every response must be handed out (1xx, then the first
+/// final): the caller asks at `first_poll`, takes a response at max(arrival, asks), is busy for `thinks[k]` after
+/// the k-th response. Returns (flat index, instant) at which the first 3xx-6xx is taken, None when a 2xx comes
+/// first or no final arrives.
+fn first_failure_taken(flat: &[Flat], first_poll: u64, thinks: &[u64]) -> Option<(usize, u64)> {
+    let mut ready = first_poll;
+    for (i, r) in flat.iter().enumerate() {
+        let p = r.t_ms.max(ready);
+        if (200..300).contains(&r.code) {
+            return None;
+        }
+        if r.code >= 300 {
+            return Some((i, p));
+        }
+        ready = p + thinks.get(i).copied().unwrap_or(0);
+    }
+    None
 }
 
 fn build_request(case: &Case) -> Option<Request> {
@@ -211,9 +321,14 @@ pub fn check(case: &Case, out: &mut CaseOut) {
         out.fail("c07.harness/request", "generator produced an unparsable request uri");
         return;
     };
-    let horizon = case.responses.last().map(|r| r.t_ms).unwrap_or(0) + 2 * TIMEOUT + 40_000;
-    let responses: Vec<(u64, Box<dyn Fn(&WireMsg) -> Vec<u8> + Send>)> = case
-        .responses
+    // the response history as it reaches the endpoint (bursts written out); markers m<i> follow this list
+    let flat = flatten(&case.responses);
+    let paced = case.first_poll > 0 || case.thinks.iter().any(|t| *t > 0);
+    let horizon = flat.last().map(|r| r.t_ms).unwrap_or(0).max(case.first_poll)
+        + case.thinks.iter().sum::<u64>()
+        + 2 * TIMEOUT
+        + 40_000;
+    let responses: Vec<(u64, Box<dyn Fn(&WireMsg) -> Vec<u8> + Send>)> = flat
         .iter()
         .enumerate()
         .map(|(i, r)| {
@@ -226,20 +341,22 @@ pub fn check(case: &Case, out: &mut CaseOut) {
             (r.t_ms, f)
         })
         .collect();
-    let delivery: Vec<Delivery> = case
-        .responses
+    let delivery: Vec<Delivery> = flat
         .iter()
         .map(|r| Delivery {
             source: if r.other_source { Some(OTHER_SOURCE.parse().unwrap()) } else { None },
             fail_send: r.send_fault,
+            other_transport: r.other_transport,
+            glued: r.glued,
         })
         .collect();
-    let obs = run_client_ex(
+    let obs = run_client_paced(
         true,
         case.reliable,
         request,
         responses,
         delivery,
+        Pace { first_poll: case.first_poll, thinks: case.thinks.clone() },
         vec![],
         horizon,
         case.rng as u64,
@@ -251,9 +368,9 @@ pub fn check(case: &Case, out: &mut CaseOut) {
     };
     let invite_sent = obs.sends.first().cloned();
 
-    // ---- reference state machine over the response history ----
+    // ---- reference state machine over the response history and the caller's pace ----
     // (what the peer put into To of response i)
-    let to_of = |r: &Resp| -> String {
+    let to_of = |r: &Flat| -> String {
         let to = invite.header("to").unwrap_or("").to_string();
         match r.to_tag {
             Some(t) if param_of(&to, "tag").is_none() => format!("{to};tag=tag{t}"),
@@ -268,51 +385,63 @@ pub fn check(case: &Case, out: &mut CaseOut) {
         /// the transport fails the send of this ACK: it must be attempted, it cannot appear on the wire
         faulted: bool,
     }
+    /// must `receive()` hand this response to the caller
+    #[derive(Clone, Copy, PartialEq, Debug)]
+    enum Need {
+        Must,
+        May,
+        Never,
+    }
     let mut want_acks: Vec<WantAck> = vec![];
-    let mut want_results: Vec<(u64, Res, bool)> = vec![]; // (time, result, optional)
-    let mut completed_at: Option<u64> = None;
+    let mut need = vec![Need::Never; flat.len()];
+    // the first 3xx-6xx while no 2xx was seen: (flat index, arrival, instant the caller takes it)
+    let completed = first_failure_taken(&flat, case.first_poll, &case.thinks);
+    let completed_at: Option<u64> = completed.map(|c| flat[c.0].t_ms);
+    // the first 2xx while no 3xx-6xx was seen: arrival instant
     let mut accepted_at: Option<u64> = None;
-    for (i, r) in case.responses.iter().enumerate() {
-        let marker = format!("m{i}");
-        if let Some(f) = completed_at {
-            // Completed: each further final response within 32 s is answered with an ACK (unreliable only)
-            if case.reliable || r.t_ms > f + 32_000 {
+    for (i, r) in flat.iter().enumerate() {
+        if let Some((ci, taken)) = completed {
+            if i < ci {
+                need[i] = Need::Must; // 1xx before the final
                 continue;
             }
-            if r.t_ms == f + 32_000 {
-                continue; // tie: don't care
+            if i == ci {
+                need[i] = Need::Must;
+                want_acks.push(WantAck { t: taken, to: Some(to_of(r)), optional: false, faulted: r.send_fault });
+                continue;
             }
-            let same_to = to_of(r) == to_of(&case.responses[completed_idx(&case.responses)]);
+            // Completed: each further final response within 32 s is answered with an ACK (unreliable only).
+            // The window of the statement counts from the arrival of the first one; the transaction enters
+            // Completed when the caller takes it, which may be later: what arrives in between the two ends of
+            // the window is not asserted. Responses that piled up before the caller took the first one are
+            // answered right behind it.
+            let f = flat[ci].t_ms;
+            if case.reliable || r.t_ms > taken + 32_000 + 1 {
+                continue;
+            }
+            let in_window = r.t_ms < f + 32_000;
+            let same_to = to_of(r) == to_of(&flat[ci]);
             want_acks.push(WantAck {
-                t: r.t_ms,
+                t: r.t_ms.max(taken),
                 to: if same_to { Some(to_of(r)) } else { None },
-                optional: r.code < 300,
+                optional: r.code < 300 || !in_window,
                 faulted: r.send_fault,
             });
         } else if let Some(a) = accepted_at {
-            if r.t_ms >= a + TIMEOUT {
-                continue;
-            }
-            want_results.push((r.t_ms, Res::Resp(r.code, marker), !(200..300).contains(&r.code)));
-        } else if r.code < 200 {
-            want_results.push((r.t_ms, Res::Resp(r.code, marker), false));
-        } else if r.code < 300 {
-            accepted_at = Some(r.t_ms);
-            want_results.push((r.t_ms, Res::Resp(r.code, marker), false));
+            // Accepted: every 2xx that arrives within 64*T1 of the first one goes to the caller
+            need[i] = if r.t_ms < a + TIMEOUT {
+                if (200..300).contains(&r.code) { Need::Must } else { Need::May }
+            } else if paced {
+                Need::May // a late caller may still find it queued: not asserted
+            } else {
+                Need::Never
+            };
         } else {
-            completed_at = Some(r.t_ms);
-            want_results.push((r.t_ms, Res::Resp(r.code, marker), false));
-            want_results.push((r.t_ms, Res::Finished, false));
-            want_acks.push(WantAck {
-                t: r.t_ms,
-                to: Some(to_of(r)),
-                optional: false,
-                faulted: r.send_fault,
-            });
+            need[i] = Need::Must;
+            if (200..300).contains(&r.code) {
+                accepted_at = Some(r.t_ms);
+            }
         }
-    }
-    if let Some(a) = accepted_at {
-        want_results.push((a + TIMEOUT, Res::Finished, false));
     }
 
     // ---- observed ACKs ----
@@ -326,11 +455,13 @@ pub fn check(case: &Case, out: &mut CaseOut) {
     if non_ack_others > 0 {
         out.fail("c07.wire/unexpected-message", format!("{non_ack_others} messages that are neither INVITE nor ACK"));
     }
-    out.note = Some(format!(
-        "acks@{:?} results={:?}",
-        acks.iter().map(|(s, _)| s.t_ms).collect::<Vec<_>>(),
-        obs.results
-    ));
+    let ack_times: Vec<u64> = acks.iter().map(|(s, _)| s.t_ms).collect();
+    let ack_times_brief = if ack_times.len() <= 12 {
+        format!("{ack_times:?}")
+    } else {
+        format!("{:?} ..{} more", &ack_times[..8], ack_times.len() - 8)
+    };
+    out.note = Some(format!("acks@{ack_times_brief} results={}", brief(&obs.results)));
 
     if accepted_at.is_some() && completed_at.is_none() && !acks.is_empty() {
         out.fail("c07.ack/sent-for-2xx", format!("transaction sent {} ACK(s) although only 2xx finals arrived", acks.len()));
@@ -401,8 +532,7 @@ pub fn check(case: &Case, out: &mut CaseOut) {
         out.fail(
             format!("c07.ack/{locus}"),
             format!(
-                "{b}; all ACKs at {:?}, failed sends at {:?}",
-                acks.iter().map(|(s, _)| s.t_ms).collect::<Vec<_>>(),
+                "{b}; all ACKs at {ack_times_brief}, failed sends at {:?}",
                 failed.iter().map(|f| f.0).collect::<Vec<_>>()
             ),
         );
@@ -474,47 +604,88 @@ pub fn check(case: &Case, out: &mut CaseOut) {
     }
 
     // ---- results of receive() ----
-    let mut wi = 0;
-    let mut bad = None;
+    // walk over what the caller got: every response that had to come out did, in arrival order, at the instant
+    // max(arrival, caller asks); then the end the statement fixes
+    let mut ready = case.first_poll; // the caller is (or will be) inside receive() from here on
+    let mut next = 0usize; // next arrival to account for
+    let mut taken = 0usize; // results so far (index into thinks)
+    let mut first_2xx_taken: Option<u64> = None;
+    let mut ended: Option<(u64, Res)> = None;
+    let mut bad: Option<String> = None;
     for (t, res) in &obs.results {
-        loop {
-            match want_results.get(wi) {
-                None => {
+        match res {
+            Res::Resp(code, marker) => {
+                let idx = marker.strip_prefix('m').and_then(|x| x.parse::<usize>().ok());
+                let Some(idx) = idx.filter(|i| *i < flat.len() && flat[*i].code == *code) else {
+                    bad = Some(format!("receive() yielded {res:?} which was never sent"));
+                    break;
+                };
+                if idx < next {
+                    bad = Some(format!("response m{idx} yielded again / out of order at {t}"));
+                    break;
+                }
+                if let Some(k) = (next..idx).find(|k| need[*k] == Need::Must) {
+                    bad = Some(format!("missing result: response m{k} ({}, arrived at {}) was skipped, next result is m{idx} at {t}", flat[k].code, flat[k].t_ms));
+                    break;
+                }
+                if need[idx] == Need::Never {
                     bad = Some(format!("unexpected result {res:?} at {t}"));
                     break;
                 }
-                Some((wt, wres, optional)) => {
-                    let time_ok = if matches!(wres, Res::Finished) && accepted_at.is_some() {
-                        t.abs_diff(*wt) <= 2
-                    } else {
-                        t == wt
-                    };
-                    if wres == res && time_ok {
-                        wi += 1;
-                        break;
-                    } else if *optional {
-                        wi += 1;
-                    } else {
-                        bad = Some(format!("expected {wres:?} at {wt}, observed {res:?} at {t}"));
-                        break;
-                    }
+                let due = flat[idx].t_ms.max(ready);
+                if *t < flat[idx].t_ms || (need[idx] == Need::Must && *t != due) {
+                    bad = Some(format!("expected {res:?} at {due} (arrived at {}, caller asks at {ready}), observed at {t}", flat[idx].t_ms));
+                    break;
                 }
+                if accepted_at.is_some() && first_2xx_taken.is_none() && (200..300).contains(code) {
+                    first_2xx_taken = Some(*t);
+                }
+                next = idx + 1;
+                ready = *t + case.thinks.get(taken).copied().unwrap_or(0);
+                taken += 1;
             }
-        }
-        if bad.is_some() {
-            break;
+            other => {
+                ended = Some((*t, other.clone()));
+                break;
+            }
         }
     }
     if bad.is_none() {
-        if let Some((wt, wres, _)) = want_results[wi.min(want_results.len())..].iter().find(|w| !w.2) {
-            // an INVITE that saw no final response keeps waiting: only finals/provisionals listed are due
-            bad = Some(format!("missing result {wres:?} expected at {wt}"));
+        if let Some(k) = (next..flat.len()).find(|k| need[*k] == Need::Must) {
+            bad = Some(format!(
+                "missing result: response m{k} ({}, arrived at {}) was never handed to the caller; transaction ended with {ended:?}",
+                flat[k].code, flat[k].t_ms
+            ));
+        } else if completed.is_some() {
+            // the failure was reported once (above), then the transaction ends: the next receive() says so at once
+            match &ended {
+                Some((t, Res::Finished)) if *t == ready => {}
+                e => bad = Some(format!("expected Finished at {ready}, observed {e:?}")),
+            }
+        } else if let Some(a) = accepted_at {
+            // completion: not before 64*T1 after the first 2xx arrived, not later than 64*T1 after the caller
+            // took it (or the caller's next receive(), when that is later still)
+            let hi = (first_2xx_taken.unwrap_or(a) + TIMEOUT).max(ready) + 2;
+            match &ended {
+                Some((t, Res::Finished)) if *t + 2 >= a + TIMEOUT && *t <= hi => {}
+                e => bad = Some(format!("expected Finished between {} and {hi}, observed {e:?}", a + TIMEOUT)),
+            }
+        } else if let Some((t, e)) = &ended {
+            // an INVITE that saw only provisional responses keeps waiting
+            bad = Some(format!("unexpected result {e:?} at {t}"));
         }
     }
     if let Some(b) = bad {
         // a transaction that never got any response times out at 64*T1 — covered by C05; here first response < 31 s always
-        let locus = if completed_at.is_some() { "failure-once-then-end" } else if accepted_at.is_some() { "2xx-to-caller" } else { "provisional" };
-        out.fail(format!("c07.results/{locus}"), format!("{b}; all: {:?}", obs.results));
+        let timed_out_at = match &ended {
+            Some((t, Res::Err(m))) if m.contains("timed out") => Some(*t),
+            _ => None,
+        };
+        let locus = if timed_out_at.map_or(false, |at| (next..flat.len()).any(|k| need[k] == Need::Must && flat[k].t_ms < at)) {
+            // a timeout is reported while a response that had arrived before is still owed to the caller
+            "timeout-although-response-arrived"
+        } else if completed_at.is_some() { "failure-once-then-end" } else if accepted_at.is_some() { "2xx-to-caller" } else { "provisional" };
+        out.fail(format!("c07.results/{locus}"), format!("{b}; all: {}", brief(&obs.results)));
     }
 
     // ---- classes ----
@@ -529,7 +700,7 @@ pub fn check(case: &Case, out: &mut CaseOut) {
     if tags.len() > 1 {
         out.class("forked-finals");
     }
-    let retransmitted_final = want_acks.len() > 1 || (accepted_at.is_some() && case.responses.iter().filter(|r| (200..300).contains(&r.code)).count() > 1);
+    let retransmitted_final = want_acks.len() > 1 || (accepted_at.is_some() && flat.iter().filter(|r| (200..300).contains(&r.code)).count() > 1);
     if retransmitted_final {
         out.class("retransmitted-final");
     }
@@ -555,35 +726,68 @@ pub fn check(case: &Case, out: &mut CaseOut) {
             out.class("retransmitted final after a failed ACK retransmission");
         }
     }
+    if case.responses.iter().any(|r| r.other_transport) {
+        out.class("response received on another transport handle than the INVITE was sent with");
+    }
+    if let Some((ci, _)) = completed {
+        if flat[ci].other_transport && !acks.is_empty() {
+            out.class(if case.reliable {
+                "ACK for a non-2xx final received on another transport handle (reliable)"
+            } else {
+                "ACK for a non-2xx final received on another transport handle (unreliable)"
+            });
+        }
+    }
+    for r in case.responses.iter().filter(|r| r.copies > 0) {
+        out.class(match (r.code, r.copies) {
+            (0..=199, _) => "burst of identical provisional responses in one go",
+            (200..=299, 0..=31) => "burst of 2..32 identical 2xx in one go",
+            (200..=299, _) => "burst of more than 32 identical 2xx in one go",
+            (_, 0..=31) => "burst of 2..32 identical non-2xx finals in one go",
+            (_, _) => "burst of more than 32 identical non-2xx finals in one go",
+        });
+    }
+    if paced {
+        out.class("caller not always inside receive() (first receive() delayed / busy after a response)");
+        let first_final = flat.iter().find(|r| r.code >= 200);
+        if case.first_poll > TIMEOUT {
+            out.class("first receive() only after 64*T1, first response arrived in time");
+            if first_final.map_or(false, |r| r.t_ms < case.first_poll) && flat.iter().take_while(|r| r.code < 200).count() == 0 {
+                out.class("final response is the first thing a caller finds that asks only after 64*T1");
+            }
+        }
+        if let Some((ci, taken)) = completed {
+            if taken > flat[ci].t_ms {
+                out.class("non-2xx final taken by the caller later than it arrived");
+                if !case.reliable && flat[ci + 1..].iter().any(|r| r.code >= 300 && r.t_ms < taken) {
+                    out.class("retransmitted finals piled up before the caller took the first one");
+                }
+            }
+        }
+        if first_2xx_taken.zip(accepted_at).map_or(false, |(t, a)| t > a) {
+            out.class("first 2xx taken by the caller later than it arrived");
+        }
+    }
     if !case.routes.is_empty() || tags.len() > 1 || retransmitted_final {
         out.nontrivial(case);
     }
-}
-
-fn completed_idx(responses: &[Resp]) -> usize {
-    let mut accepted = false;
-    for (i, r) in responses.iter().enumerate() {
-        if (200..300).contains(&r.code) {
-            accepted = true;
-        }
-        if r.code >= 300 && !accepted {
-            return i;
-        }
-    }
-    0
 }
 
 pub fn property() -> Property {
     Property {
         fuzz: vec![],
         id: "C07",
-        rule: "cases = INVITE (Request-URI shapes incl. IPv6/params, From/To with display names, 0..3 Route values, optional Via sent-by override, random Call-ID/CSeq) x reliable/unreliable x 1..5 scripted responses (any class, To-tag none/3 tags, offsets around 32 s and 64*T1, echoed CSeq number / Call-ID / From / top-Via parameters optionally changed by the peer, packet source = INVITE destination or another address, transient send failure of the ACK for a retransmitted final) under a paused clock. Non-trivial = INVITE carries a Route, or finals with different To-tags, or a retransmitted final; distinct by hash of the case.",
+        rule: "cases = INVITE (Request-URI shapes incl. IPv6/params, From/To with display names, 0..3 Route values, optional Via sent-by override, random Call-ID/CSeq) x reliable/unreliable x 1..5 scripted responses (any class, To-tag none/3 tags, offsets around 32 s and 64*T1, echoed CSeq number / Call-ID / From / top-Via parameters optionally changed by the peer, packet source = INVITE destination or another address, received on the INVITE's transport handle or on a second transport of the same kind, one response optionally followed by a burst of 1..100 retransmissions of itself that reach the endpoint before any task runs, transient send failure of the ACK for a retransmitted final) x pace of the application (first receive() at once / at 1 ms..31.5 s / only after 64*T1: 32.001..70 s; busy 0/10/600/5000/33000 ms after each response) under a paused clock. Non-trivial = INVITE carries a Route, or finals with different To-tags, or a retransmitted final; distinct by hash of the case.",
         assumptions: vec![
             "timers on tokio's paused clock (hook H2); wire read back with the independent WireMsg parser and with ezk's parse_complete",
             "the ACK for a later non-2xx with a different To-tag must be sent but its To is not asserted; ACKs triggered by 1xx/2xx arriving in Completed are optional",
             "responses never arrive exactly on the 32 s / 64*T1 edge",
             "send faults hit only ACK retransmissions of the Completed state (unreliable transport): the failed call counts as the one ACK for that response, every other response within 32 s still needs its own ACK on the wire",
-            "the ACK goes to the INVITE's destination also when the response came from another source address",
+            "the ACK goes to the INVITE's destination, on the transport handle the INVITE was sent with, also when the response came from another source address or was received on another transport handle",
+            "the transaction object is poll-driven: the ACK for the first 3xx-6xx is due when the caller's receive() takes that response (arrival, or the caller's next receive() if later), retransmitted finals that piled up until then are answered right behind it; the 32 s / 64*T1 windows of the statement count from the ARRIVAL of the first final, what arrives after that but within 32 s / 64*T1 of the caller TAKING it is optional",
+            "a response that arrived before 64*T1 must come out of receive() however late the caller asks (the first response always arrives before 31 s); a first receive() exactly on 64*T1 is not generated",
+            "responses of one burst are expected in the order they were handed to the endpoint (the simulated scheduler runs the endpoint's per-message tasks first-in first-out)",
+            "send faults are generated only for responses arriving after the caller took the first 3xx-6xx, never inside a burst",
         ],
         explanation: "sampled histories; header shapes from fixed pools",
         subs: vec![prop_sub("ack", strategy, 3000, 60000, check)],
